@@ -9,4 +9,4 @@ cp -a /repo $w/repo
 rsync -a --exclude .git --exclude logs --exclude replays --exclude evidence /verif/ $w/verif/
 sed -i "s|=> /repo/|=> $w/repo/|" $w/verif/harness/go.mod
 if [ "$name" != "-" ]; then git -C $w/repo apply $patch || git -C $w/repo apply -3 $patch || exit 3; fi
-cd $w/verif && VERIF_REPO=$w/repo ./check $id $tier; echo "rc=$? (logs in $w/verif/logs)"
+cd $w/verif && VERIF_REPO=$w/repo ${ISO_ENV:+env $ISO_ENV} ./check $id $tier; echo "rc=$? (logs in $w/verif/logs)"
